@@ -151,3 +151,36 @@ Theorem resume_covers_geo :
          (procs (firstn k (geo_walk g msx msy cov skipk levels root None)) ++
           procs (geo_walk g msx msy cov skipk levels root id)).
 Proof. exact resume_covers_geo_lemma. Qed.
+
+(* ---- what a process call hands over (walker after the repair "examine every tile of a meta tile") *)
+
+(* In the traces above EProc t stands for the meta tile with main tile t.  `observe` turns a trace into what the worker
+   pool really sees: one call per meta tile with the list handed_tiles (handle_all: [t]; otherwise the members of the
+   meta tile that pass the filter keep = "not cached" / "stale"), no call when that list is empty.
+   The list consists exactly of the tiles of the grid that belong to the meta tile of t and pass the filter: no member
+   that needs work is left out (the defect repaired by the commit), nothing outside the meta tile is added. *)
+Theorem handed_tiles_exactly_the_members :
+  forall g msx msy keep tx ty l c,
+    In c (handed_tiles g msx msy false keep (tx, ty, l)) <->
+    exists x y,
+      c = (x, y, l) /\ keep c = true /\
+      (let '(sx, sy) := meta_size g msx msy l in
+       tx / sx * sx <= x <= tx / sx * sx + sx - 1 /\ ty / sy * sy <= y <= ty / sy * sy + sy - 1) /\
+      (let '(nx, ny) := grid_size g l in 0 <= x < nx /\ 0 <= y < ny).
+Proof. exact handed_tiles_spec. Qed.
+
+(* the single tiles of the observable trace are the handed-over members of the meta tiles of the walk *)
+Theorem observed_tiles_are_handed :
+  forall g msx msy hall keep evs,
+    oprocs (observe g msx msy hall keep evs) = handed_all g msx msy hall keep evs.
+Proof. exact oprocs_observe. Qed.
+
+(* resume_covers on the single tiles handed over, for either mode and any (fixed) cache content *)
+Theorem resume_covers_handed :
+  forall g msx msy cov skipk levels root k j lv id hall keep,
+    geo_wf g msx msy -> levels_wf g levels -> levels <> [] ->
+    nth_error (geo_walk g msx msy cov skipk levels root None) j = Some (ERep lv id) -> (j < k)%nat ->
+    incl (handed_all g msx msy hall keep (geo_walk g msx msy cov skipk levels root None))
+         (handed_all g msx msy hall keep (firstn k (geo_walk g msx msy cov skipk levels root None)) ++
+          handed_all g msx msy hall keep (geo_walk g msx msy cov skipk levels root id)).
+Proof. exact resume_covers_handed_lemma. Qed.
